@@ -23,12 +23,27 @@ pub struct Req {
     pub body: Vec<u8>,
     pub content_type: Option<String>,
     pub query: String,
+    /// application-level `web::JsonConfig` registered as app data (actix only): the framework's
+    /// extractor honours it, so must the deserr one
+    pub cfg: Option<String>,
 }
 
 fn actix_parts(r: &Req) -> (actix_web::HttpRequest, actix_web::dev::Payload) {
     let mut t = actix_web::test::TestRequest::post().uri(&format!("/x?{}", r.query));
     if let Some(ct) = &r.content_type {
         t = t.insert_header(("content-type", ct.as_str()));
+    }
+    match r.cfg.as_deref() {
+        Some("limit16") => t = t.app_data(actix_web::web::JsonConfig::default().limit(16)),
+        Some("text_plain") => t = t.app_data(actix_web::web::JsonConfig::default().content_type(|m| m.essence_str() == "text/plain")),
+        Some("ct_optional") => t = t.app_data(actix_web::web::JsonConfig::default().content_type_required(false)),
+        Some("handler409") => {
+            t = t.app_data(actix_web::web::JsonConfig::default().error_handler(|err, _req| {
+                let body = format!("custom: {}", err);
+                actix_web::error::InternalError::from_response(err, actix_web::HttpResponse::Conflict().body(body)).into()
+            }))
+        }
+        _ => {}
     }
     t.set_payload(r.body.clone()).to_http_parts()
 }
@@ -115,6 +130,7 @@ fn main() {
             body: j["body"].as_str().unwrap().as_bytes().to_vec(),
             content_type: j["content_type"].as_str().map(|s| s.to_string()),
             query: j["query"].as_str().unwrap_or("").to_string(),
+            cfg: j["cfg"].as_str().map(|s| s.to_string()),
         };
         let tid = j["tid"].as_u64().unwrap() as u32;
         let res = std::panic::catch_unwind(std::panic::AssertUnwindSafe(|| generated::dispatch_http(tid, &r)));
